@@ -90,6 +90,29 @@ def check_point(pt, only=None):
         if got != ref:
             vio.append(V(pt, name, text, cfg, ci, "content-differs", "same content as default output",
                          canon.diff_tags(ref, got), t))
+    # the in-memory WRAP item edited by value between two wrapped writes of the same object: write(wrap=True) decides
+    # the layout AND the WRAP item, whatever the item said before
+    if only in (None, "wrapedit"):
+        for dw in (79, 20):
+            cfg = dict(cfgs[0])
+            cfg.update({"wrap": True, "data_width": dw})
+            try:
+                lw = lasio.read(text, mnemonic_case=case)
+                roundtrip.write_text(lw, cfg)
+                key = next((i.mnemonic for i in lw.version if i.original_mnemonic.upper() == "WRAP"), None)
+                if key is None:
+                    continue
+                lw.version[key] = "NO"
+                t2 = roundtrip.write_text(lw, cfg)
+                got = roundtrip.tag(lasio.read(t2, mnemonic_case=case), SKIP)
+                evals += 3
+            except Exception as e:
+                vio.append(V(pt, name, text, cfg, "wrapedit", "wrap-item-edit-raises", "same content as default output",
+                             "%s: %s" % (type(e).__name__, str(e)[:160]), None))
+                continue
+            if got != ref:
+                vio.append(V(pt, name, text, cfg, "wrapedit", "content-differs-after-wrap-item-edit", "same content as default output",
+                             canon.diff_tags(ref, got), t2))
     return e1.compress(vio), ("%s|%s" % (name, case), nontriv), "ok", {}, evals
 
 
